@@ -306,10 +306,11 @@ class Checker:
         :return: whether the key can sign the packet
         """
         pkt_name = Name.normalize(pkt_name)
-        if Component.get_type(pkt_name[-1]) == Component.TYPE_IMPLICIT_SHA256:
+        # (a name may be empty: "/" is a legal packet name, and matches no rule with components)
+        if pkt_name and Component.get_type(pkt_name[-1]) == Component.TYPE_IMPLICIT_SHA256:
             pkt_name = pkt_name[:-1]
         key_name = Name.normalize(key_name)
-        if Component.get_type(key_name[-1]) == Component.TYPE_IMPLICIT_SHA256:
+        if key_name and Component.get_type(key_name[-1]) == Component.TYPE_IMPLICIT_SHA256:
             key_name = key_name[:-1]
         for pkt_node_id, context in self._match(pkt_name, {}):
             pkt_node = self.model.nodes[pkt_node_id]
